@@ -105,6 +105,7 @@ def build_all(log):
     if rc:
         st['coq_all_ok'] = False
         st['coq_errors'] += coq_errors(out)
+    sh(['go', 'mod', 'edit', '-replace', 'github.com/ja7ad/otp=' + REPO], cwd=os.path.join(ROOT, 'harness'), env=GOENV, timeout=60)
     rc, out = sh(['go', 'build', '-tags', 'verif', '-o', os.path.join(BIN, 'harness'), '.'], cwd=os.path.join(ROOT, 'harness'), env=GOENV, timeout=900)
     log.write('--- go build harness\n' + out)
     if rc:
@@ -442,7 +443,12 @@ def run_check(pid, tier, seed, replay, log, t0):
     for d in extra.get('violations', []):
         diffs.append(d)
     known = load_known()
+    seen_cases = set()
     for d in diffs:
+        key = (d.get('case'), d.get('kind'))
+        if d.get('case') and key in seen_cases:
+            continue
+        seen_cases.add(key)
         hit = None
         for (kp, rx, text) in known:
             if kp == pid and rx.search(d.get('case', '')):
